@@ -392,7 +392,18 @@ def run_unit(scratch, unit, prefixes, prop, tier, safety_default=None, drop_hint
     rules = {}
     for e in manifest["edits"]:
         rules[e["rule"]] = rules.get(e["rule"], 0) + 1
+    # per-function metadata for the call-graph closure (which functions a property's functions rest on)
+    fnmeta = []
+    for f in manifest["functions"]:
+        if f.get("kind") not in ("fn",):
+            continue
+        k = f["item_id"]
+        a = unit_text.find("/*{item:%d*/" % k)
+        b = unit_text.find("/*item:%d}*/" % k)
+        fnmeta.append({"unit": unit, "anchor": f["anchor"], "seg": unit_text[a:b] if a >= 0 and b >= 0 else f.get("text", ""),
+                       "clauses": sorted({c["id"] for c in manifest.get("clauses", []) if c.get("fn") == f["anchor"]})})
     return {
+        "fnmeta": fnmeta,
         "unit": unit, "manifest": manifest, "failures": failures, "tool": tool,
         "verified": vr.get("verified", 0), "errors": vr.get("errors", 0),
         "wall_s": wall, "cmd": " ".join(cmd).replace(work, "<scratch>/verus-" + unit),
@@ -458,9 +469,10 @@ def common_known(f):
 def run_units(scratch, units, prop, tier, canaries=True):
     """units: list of (unit name, [clause prefixes that count for prop besides '<prop>.'])."""
     out = {"failures": [], "tool": [], "vacuous": [], "units": [], "cmds": [], "trusted": [], "assumptions": [],
-           "obligations": 0, "discharged": 0, "samples": [], "other_prop": []}
+           "obligations": 0, "discharged": 0, "samples": [], "other_prop": [], "fnmeta": []}
     for unit, prefixes in units:
         res = run_unit(scratch, unit, prefixes, prop, tier)
+        out["fnmeta"] += res["fnmeta"]
         pref = [prop + "."] + list(prefixes or [])
         mine, others = [], []
         for f in res["failures"]:
@@ -509,3 +521,77 @@ def run_units(scratch, units, prop, tier, canaries=True):
                                        "engine": "verus", "unit": unit})
     out["assumptions"] = sorted(set(out["trusted"]))
     return out
+
+
+# ---------------------------------------------------------------------------------------------------------------
+# Call-graph closure (DESIGN 11.2 "rests-on closure"). Verification is modular: the proof of a function sees only
+# its callees' contracts, so a property carried by function F silently rests on every clause of every function F
+# calls. A change that breaks a callee fails the CALLEE's clause -- which may carry another property's name.
+# For a property P: roots = functions (outside the hub unit) that carry a clause of P; closure = everything they
+# call, transitively, among the functions under contract. Every clause of a function in the closure counts for P.
+HUB_UNITS = ("u5_hub",)
+
+
+# which source file may call into which: a method-name match (`.flush(`) is only taken as a call when the callee's
+# file is at the same or a lower layer than the caller's (the transport never calls the packet layer, the packet
+# layer never calls the result writers)
+LAYER = {"src/lib.rs": 5, "src/resultset.rs": 4, "src/writers.rs": 3, "src/params.rs": 3, "src/value/encode.rs": 3,
+         "src/value/decode.rs": 3, "src/commands.rs": 3, "src/packet.rs": 2, "src/tls.rs": 1}
+
+
+def _layer(anchor):
+    return LAYER.get(anchor.split("::")[0], 3)
+
+
+def _split_anchor(anchor):
+    parts = anchor.split("::")
+    name = parts[-1]
+    typ = parts[-2] if len(parts) >= 3 else None
+    return typ, name
+
+
+def call_graph(fnmeta):
+    metas = {}
+    for m in fnmeta:
+        metas.setdefault(m["anchor"], m)       # the same function may be extracted by several units
+    anchors = sorted(metas)
+    pats = {}
+    for a in anchors:
+        typ, name = _split_anchor(a)
+        tf = r"(?:\s*::\s*<[^>()]*>)?"
+        if typ:
+            pats[a] = (typ, re.compile(r"(?:\b%s(?:\s*<[^>()]*>)?\s*::\s*%s\b)|(?:\.\s*%s%s\s*\()" % (re.escape(typ), re.escape(name), re.escape(name), tf)),
+                       re.compile(r"\bSelf\s*::\s*%s\b" % re.escape(name)))
+        else:
+            pats[a] = (None, re.compile(r"(?<![.\w])%s%s\s*\(" % (re.escape(name), tf)), None)
+    calls = {a: set() for a in anchors}
+    for a in anchors:
+        seg = metas[a]["seg"]
+        # the function's own header must not count as a call of itself
+        atyp, aname = _split_anchor(a)
+        for b in anchors:
+            if b == a or _layer(b) > _layer(a):
+                continue
+            typ, pat, selfpat = pats[b]
+            if pat.search(seg) or (selfpat is not None and typ == atyp and selfpat.search(seg)):
+                # `fn name(` of the definition itself is not a call
+                if typ is None and re.search(r"\bfn\s+%s\b" % re.escape(_split_anchor(b)[1]), seg) and not pat.search(re.sub(r"\bfn\s+\w+", "fn", seg)):
+                    continue
+                calls[a].add(b)
+    return metas, calls
+
+
+def rests_on(fnmeta, prefixes):
+    """(roots, closure): functions carrying a clause with one of `prefixes` (hub functions excluded as roots),
+    and everything under contract they call, transitively."""
+    metas, calls = call_graph(fnmeta)
+    roots = {a for a, m in metas.items() if m["unit"] not in HUB_UNITS
+             and any(c.startswith(p) for c in m["clauses"] for p in prefixes)}
+    seen, todo = set(roots), list(roots)
+    while todo:
+        a = todo.pop()
+        for b in calls.get(a, ()):
+            if b not in seen and metas[b]["unit"] not in HUB_UNITS:
+                seen.add(b)
+                todo.append(b)
+    return roots, seen
